@@ -317,5 +317,50 @@ func c16(p *core.Program, r *core.Report) {
 			r.Check(stored && read, r2, key, p.Pos(fn.Pos()), false, "field is stored into dst and read from src", fmt.Sprintf("field %s: stored into dst=%v, read from src=%v - the clone would not equal the original", st.Field(i).Name(), stored, read))
 		}
 	}
+	// ---- rule 3: every copy is sized by the slice it copies
+	const r3 = "clone-sized-by-source"
+	r.Rule(r3, "in every function statically reachable from a Clone method, each slice allocation has length len(x) of a slice loaded from the source (never a length derived from the layout, the stride or a constant): a Bounds or geometry whose slices are longer or shorter than its layout suggests is still copied whole", 8)
+	seenFn := map[*ssa.Function]bool{}
+	var work []*ssa.Function
+	for _, e := range m.Entries {
+		if e.Name() == "Clone" && core.FnPkgPath(e) == mod {
+			work = append(work, e)
+		}
+	}
+	sort.Slice(work, func(i, j int) bool { return work[i].String() < work[j].String() })
+	var order []*ssa.Function
+	for len(work) > 0 {
+		fn := work[0]
+		work = work[1:]
+		if seenFn[fn] || !core.InModule(fn) {
+			continue
+		}
+		seenFn[fn] = true
+		order = append(order, fn)
+		for _, c := range eng.Calls(fn) {
+			if cal := c.Common().StaticCallee(); cal != nil {
+				work = append(work, cal)
+			}
+		}
+		work = append(work, fn.AnonFuncs...)
+	}
+	for _, fn := range order {
+		k := 0
+		for _, b := range fn.Blocks {
+			for _, in := range b.Instrs {
+				ms, ok := in.(*ssa.MakeSlice)
+				if !ok {
+					continue
+				}
+				k++
+				okLen := false
+				if lc, isC := ms.Len.(*ssa.Call); isC && eng.BuiltinName(lc) == "len" {
+					okLen = true
+				}
+				r.Check(okLen, r3, fmt.Sprintf("%s/make#%d", short(fn), k), p.Pos(ms.Pos()), true, "allocated with the length of the slice being copied",
+					"the copy is allocated with length "+ms.Len.String()+", not len() of the source slice: elements beyond (or missing below) that length are dropped or zero-filled in the clone")
+			}
+		}
+	}
 	r.Assume("value equality of the copy relies on the semantics of builtin copy for the scalar element types; regeneration of derived.gen.go by goderive is not checked (the committed file is analysed)")
 }
